@@ -72,6 +72,9 @@ def run(chk, ctx):
                 chk.require(all(x.startswith("IterationError::Runtime{0: ") for x in r) and bool(r), "TAB", "TAB:extract:virtual-error-is-runtime-error", "map_err(|e| IterationError::Runtime(..e..))", "evaluation error mapped to %s" % r)
     # declaration expression: every identifier is an output read
     c11.scoping_rules(chk, P, only=("declare",))
+    # "any expressions over output-capable signals": an identifier of a declaration binds iff some signal of that name is
+    # output-capable — whether or not it has a header column (C11's read-output condition, exact tables)
+    c11.condition_rules(chk.only(("build_read_outputs", "read-outputs:exact-loop-table", "Signal::is_output")), P)
     # expected value from the column of that name or X: C06's table (Virtual treated like Output)
     bi = P.body("parsed_test_case::ParsedTestCase::build_indices")
     if bi is not None:
